@@ -35,7 +35,7 @@
      Proofs/Compose.serve_factor: Serve.serve = patch of the canonical outcome - the adapter lemma.
    * random draws: Serve.v has none (a weighted selection is an IPick item = candidates + number
      served; C11 owns the draw), so [core] ignores Cache's rnd.  max-answer is an explicit parameter
-     of the wrappers, fixed along a history (it comes from the listener, C20).
+     of the wrappers (it comes from the listener, C20); in a history every query brings its own.
    * weighted (never cached unless WRSTimeout > 0): Wrs.WeightedAnswer = some family counted more
      than one candidate, in the answer or for some target of the additional section  [is_weighted].
      not cached at all: REFUSED and the SERVFAIL exits return before lru.Add  [uncached].
@@ -129,28 +129,32 @@ Definition handle (max : N) (cfg : Cache.cconfig) (g : gen) (c : hcache) (now : 
   if negb (badvers r) && negb (located g r) then (c, fun _ => ONoReply, Cache.OOff)
   else cached_serve max cfg g c now r.
 
-(* sequential histories of the whole handler (events of Model/Cache: queries, reloads, failed reloads);
-   [htrace] lists for every query the generation in force, the request, what is written, hit or miss *)
+(* sequential histories of the whole handler (events of Model/Cache: queries, reloads, failed reloads).
+   The max answer a query arrives with is its listener's (C20): in a history it is the third component of
+   the query event - Cache's per-query "random draws", which Serve.v does not have.  The cache is shared
+   by all listeners and its key does not hold the max answer.
+   [htrace] lists for every query the generation in force, its max answer, the request, what is written,
+   hit or miss *)
 Definition hstate := (gen * hcache)%type.
-Definition hstep (max : N) (cfg : Cache.cconfig) (st : hstate) (ev : Cache.event gen) : hstate :=
+Definition hstep (cfg : Cache.cconfig) (st : hstate) (ev : Cache.event gen) : hstate :=
   let (g, c) := st in
   match ev with
-  | Cache.EQuery _ now _ r => let '(c', _, _) := handle max cfg g c now r in (g, c')
+  | Cache.EQuery _ now mx r => let '(c', _, _) := handle mx cfg g c now r in (g, c')
   | Cache.EReload _ g' => (g', [])
   | Cache.EReloadFailed _ => (g, c)
   end.
-Definition hfinal (max : N) (cfg : Cache.cconfig) (st : hstate) (h : list (Cache.event gen)) : hstate :=
-  fold_left (hstep max cfg) h st.
-Fixpoint htrace (max : N) (cfg : Cache.cconfig) (st : hstate) (h : list (Cache.event gen))
-  : list (gen * Cache.request * wresponse * Cache.outcome) :=
+Definition hfinal (cfg : Cache.cconfig) (st : hstate) (h : list (Cache.event gen)) : hstate :=
+  fold_left (hstep cfg) h st.
+Fixpoint htrace (cfg : Cache.cconfig) (st : hstate) (h : list (Cache.event gen))
+  : list (gen * N * Cache.request * wresponse * Cache.outcome) :=
   match h with
   | [] => []
   | ev :: h' =>
       match ev with
-      | Cache.EQuery _ now _ r =>
-          let '(_, f, o) := handle max cfg (fst st) (snd st) now r in [(fst st, r, f, o)]
+      | Cache.EQuery _ now mx r =>
+          let '(_, f, o) := handle mx cfg (fst st) (snd st) now r in [(fst st, mx, r, f, o)]
       | _ => []
-      end ++ htrace max cfg (hstep max cfg st ev) h'
+      end ++ htrace cfg (hstep cfg st ev) h'
   end.
 
 (* ------------------------------------------------------------------ modulo owner-name case *)
